@@ -371,8 +371,23 @@ def sx_equal(a, b):
     return a == b
 
 
+def alpha(t, env=None, depth=0):
+    """names bound by `let` / `const` are compared up to renaming: they are replaced by their binding depth"""
+    env = env or {}
+    if isinstance(t, list):
+        if len(t) == 4 and t[0] == "let" and isinstance(t[1], str):
+            new = "$L%d" % depth
+            env2 = dict(env)
+            env2[t[1]] = new
+            return ["let", new, alpha(t[2], env, depth), alpha(t[3], env2, depth + 1)]
+        if len(t) == 2 and t[0] in ("var", "path") and isinstance(t[1], str) and t[1] in env:
+            return ["var", env[t[1]]]
+        return [alpha(x, env, depth) for x in t]
+    return t
+
+
 def compare(real_sx, model_sx):
     try:
-        return sx_equal(strip_id(parse_sx(normalise(real_sx))), strip_id(parse_sx(model_sx)))
+        return sx_equal(alpha(strip_id(parse_sx(normalise(real_sx)))), alpha(strip_id(parse_sx(model_sx))))
     except Exception:  # noqa
         return False
